@@ -217,6 +217,8 @@ static void BuildBases(const vf::Args &a) {
   for (auto &n : ListDrc("/repo/testdata")) { std::string b = ReadFile("/repo/testdata/" + n); if (b.size() >= 11) g_bases.push_back({"testdata/" + n, b, kGeometry, 0}); }
   int nf = 0;
   for (auto &n : ListDrc("/verif/corpus/frozen")) { if (nf >= max_frozen) break; std::string b = ReadFile("/verif/corpus/frozen/" + n); if (b.size() >= 11 && (thorough || b.size() <= 900)) { g_bases.push_back({"frozen/" + n, b, kGeometry, 0}); ++nf; } }
+  // Hand-made valid streams for known numeric corner cases (written once with the plain build: --emit-special).
+  for (auto &n : ListDrc("/verif/corpus/special")) { std::string b = ReadFile("/verif/corpus/special/" + n); if (b.size() >= 11) g_bases.push_back({"special/" + n, b, kGeometry, 0}); }
   // keyframe animation streams, metadata blobs and symbol blocks (generated deterministically)
   Rng r(777, 1, 2);
   for (int i = 0; i < 4; ++i) {
@@ -258,7 +260,7 @@ static void BuildBases(const vf::Args &a) {
   // Systematic plan over the short bases.
   for (size_t b = 0; b < g_bases.size(); ++b) {
     const int64_t L = static_cast<int64_t>(g_bases[b].bytes.size());
-    if (static_cast<size_t>(L) > max_len) continue;
+    if (static_cast<size_t>(L) > max_len && g_bases[b].name.rfind("special/", 0) != 0) continue;
     const int64_t counts[4] = {L + 1, 8 * L, 6 * L, 4 * L};  // truncation length L = the unmodified stream
     for (int kd = 0; kd < 4; ++kd) { g_plan.push_back({static_cast<int>(b), kd, counts[kd], g_plan_total}); g_plan_total += counts[kd]; }
   }
@@ -295,7 +297,32 @@ static void BuildTamperBases(const vf::Args &a) {
   }
 }
 
+static int EmitSpecial(const std::string &dir) {
+  mkdir(dir.c_str(), 0777);
+  // Mesh with 30-bit texture coordinates and 21-bit positions, coded with the tex-coord portable predictor.
+  for (int variant = 0; variant < 2; ++variant) {
+    Rng r(99, 5, variant);
+    vf::Topo t;
+    vf::GridPatch(t, 5, 5, false, false);
+    vf::GenParams gp;
+    gp.allow_unused = false;
+    std::vector<vf::AttrPlan> plans = {{GeometryAttribute::POSITION, DT_FLOAT32, 3, false, 0, 0, 0}, {GeometryAttribute::TEX_COORD, DT_FLOAT32, 2, false, 1, 0.0, 1}};
+    vf::Geo g = vf::BuildGeo(r, t, plans, gp);
+    vf::EncOpts o;
+    o.expert = true; o.method = 1; o.enc_speed = 0; o.dec_speed = 0;
+    o.qbits = {variant ? 21 : 16, variant ? 21 : 30};
+    o.pred = {-100, MESH_PREDICTION_TEX_COORDS_PORTABLE};
+    std::unique_ptr<Mesh> mesh = vf::ToMesh(g);
+    vf::EncResult er = vf::Encode(g, *mesh, mesh.get(), o);
+    if (!er.status.ok()) { fprintf(stderr, "special %d: %s\n", variant, er.status.error_msg()); return 1; }
+    std::ofstream f(dir + "/texcoord_" + (variant ? "pos21_uv21" : "pos16_uv30") + ".drc", std::ios::binary);
+    f.write(er.bytes.data(), er.bytes.size());
+  }
+  return 0;
+}
+
 int main(int argc, char **argv) {
+  for (int i = 1; i + 1 < argc; ++i) if (std::string(argv[i]) == "--emit-special") return EmitSpecial(argv[i + 1]);
   {
     vf::Args a = vf::ParseArgs(argc, argv);
     BuildBases(a);
